@@ -17,6 +17,12 @@ CONN_MODELLED = ("conn.go send/recv/read/finishCall/complete/closeQueue/Close an
                  "conn.mutex critical sections and gate crossings; the lock-free code between two gates is assumed to behave as the model's step says (sampled by the state correspondence, not proved); "
                  "streams are not part of K; hslam/scheduler is modelled as a FIFO single worker (closeQueue drains it in order)")
 
+SRV_RULE = ("scripted scenarios against the real Server.ServeCodec over a fake socket.Messages with gated handlers of four shapes: requests (known/unknown method, decodable or not), pings, "
+            "every kind of upgrade byte, junk frames, handler results (ok, error text, unencodable reply), EOF/read error with handlers running, bursts of up to 64 requests followed at once by EOF; "
+            "four modes direct-IO x pipelining, four header encoders; state compared with the Lean server automaton after every action")
+SRV_MODELLED = ("server.go ServeCodec/ServeRequest/handleRequest/readRequestBody/callService/sendResponse and codec_server.go WriteResponse are modelled as the automaton S (Model/ServerSM.lean); "
+                "crash sites (nil Func, zero reflect.Value, WaitGroup reuse) are values of the model guarded by facts read from the source (Generated/ServerFacts.lean); streams and poll mode are not part of S")
+
 POOL_RULE = ("scripted scenarios against the real *rpc.Transport whose Dial returns real Conns over an in-memory scripted server: sequential and held (long-running) calls of four forms to three addresses, "
              "server kill/revive, idle phases (short / medium: KeepAlive passes / long: IdleConnTimeout passes), CloseIdleConnections, Close, limits in {-1,0,1,2,3}x{-1,0,1,2,5}; "
              "after every action the pool snapshot (verif accessor), open sockets, dial count and call outcomes are compared with the Lean pool automaton; distinct = (limits, action sequence)")
@@ -40,6 +46,15 @@ PROPS = {
         "rule": CONN_RULE, "trusted_base": TB_COMMON, "modelled": CONN_MODELLED,
         "assumptions": ["Done channels have room for the calls they carry", "fewer than 2^64 calls per connection"],
     },
+    "C03": {"components": [{"name": "conn", "driver": "conn", "streams": ["k"]}], "rule": CONN_RULE, "trusted_base": TB_COMMON, "modelled": CONN_MODELLED,
+            "assumptions": ["'within bounded time' is a quiescence theorem plus a 3 s deadline on every blocking call in the correspondence runs", "closing a real socket unblocks a blocked Read/Write (OS)"]},
+    "C05": {"components": [{"name": "conn", "driver": "conn", "streams": ["k"]}, {"name": "server", "driver": "server", "streams": ["s"]}],
+            "rule": CONN_RULE + " | " + SRV_RULE, "trusted_base": TB_COMMON, "modelled": CONN_MODELLED + " | " + SRV_MODELLED,
+            "assumptions": ["client order is over completions determined by the connection (responses processed in arrival order, failures, refusals, sweep in sequence order); it equals issue order when the server answers in request order", "poll mode is exercised by the end-to-end runs only"]},
+    "C06": {"components": [{"name": "conn", "driver": "conn", "streams": ["k"]}, {"name": "server", "driver": "server", "streams": ["s"]}],
+            "rule": CONN_RULE + " | " + SRV_RULE, "trusted_base": TB_COMMON, "modelled": CONN_MODELLED + " | " + SRV_MODELLED, "assumptions": ["error texts are non-empty"]},
+    "C19": {"components": [{"name": "conn", "driver": "conn", "streams": ["k"]}], "rule": CONN_RULE, "trusted_base": TB_COMMON, "modelled": CONN_MODELLED,
+            "assumptions": ["'as soon as' = cancellation is an always-enabled single step; a caller blocked inside a write (no pipelining) sees the cancellation when the write returns", "the late response of an abandoned call is still decoded into that call's own reply/buffer (observed, allowed by the property)"]},
     "C13": {"components": [{"name": "pool", "driver": "pool", "streams": ["p"]}], "rule": POOL_RULE, "trusted_base": TB_POOL, "modelled": POOL_MODELLED, "assumptions": ["logical clock; real timers only in the correspondence, with margins of >= 20 housekeeping periods around every threshold"]},
     "C14": {"components": [{"name": "pool", "driver": "pool", "streams": ["p"]}], "rule": POOL_RULE, "trusted_base": TB_POOL, "modelled": POOL_MODELLED, "assumptions": ["'promptly' (ErrDial without delay) is measured by the harness deadline, not proved"]},
     "C15": {"components": [{"name": "pool", "driver": "pool", "streams": ["p"]}], "rule": POOL_RULE, "trusted_base": TB_POOL, "modelled": POOL_MODELLED, "assumptions": ["reclamation after KeepAlive/IdleConnTimeout is observed in the correspondence phases (idle medium / idle long), not proved as a liveness theorem",
@@ -61,6 +76,22 @@ NOT_APPLICABLE = {}
 KERNEL_NOTE = "Trusted: Lean kernel (propext, Classical.choice, Quot.sound only), the extractor, the harness (gates, quiescence detection, monitors). "
 
 MANIFEST_TEXT = {
+    "C03": {
+        "text": "Lean 4 theorems over K: after the reader's final sweep nothing is registered; a call started after the end is refused with ErrShutdown without touching the wire; the sweep is enabled only after every received frame was processed (a response received before the cut completes its call); in every quiescent state with no gate held every call is completed or waiting on a live connection and every signalled blocking caller has returned. State correspondence with the real Conn for EOF/read error/Close at every point of scripted conversations.",
+        "note": KERNEL_NOTE + "Elapsed time is measured (3 s deadline per blocking call), not proved; OS behaviour of closed sockets is trusted; server-side cut positions by byte offset are covered by the end-to-end runs only.",
+        "technique": "Lean 4 proof (invariants + quiescence theorem) + state correspondence under scripted cuts + monitors"},
+    "C05": {
+        "text": "Lean 4 theorems: with client pipelining the shared Done channel receives asynchronous calls in exactly the order their completion was determined (FIFO refinement: determined = arrived ++ queued), success or failure alike; server automaton S executes jobs of a pipelining connection in dispatch order, one at a time. Both automata are compared state-by-state with the real Conn / ServeCodec; monitors check handler overlap, entry order, response order and Done-channel order.",
+        "note": KERNEL_NOTE + "Server-side theorems are attached as they are proved (see evidence for the list of obligations discharged on this run); poll mode only end to end.",
+        "technique": "Lean 4 proof (FIFO invariants) + state correspondence (client and server) + order monitors"},
+    "C06": {
+        "text": "Lean 4 theorems over K: a server error text in Call.Error comes from a received error response carrying the call's own sequence number; a failed call's reply is never written; processing a response touches only the call registered under its sequence number; a request that cannot be encoded leaves pending table and wire log unchanged. Correspondence with real Conn and ServeCodec; monitors check error texts verbatim (up to 5000 bytes, multi-byte UTF-8), stability of the text under later traffic, untouched replies.",
+        "note": KERNEL_NOTE + "Text stability (no aliasing of the read buffer) is observed by the monitor, not proved.",
+        "technique": "Lean 4 proof (provenance + frame properties) + state correspondence + text monitors"},
+    "C19": {
+        "text": "Lean 4 theorems over K: cancelling an un-returned context call is an always-enabled step that returns the context's error, keeps the call registered and changes no other call; a late response changes only the call registered under its sequence number; a signalled call is never touched again; the reply goes into the caller's buffer iff its capacity suffices. Correspondence under scripted orders of cancel vs response, buffers of capacity len-1/len/len+1.",
+        "note": KERNEL_NOTE + "'As soon as' is a one-step enabledness lemma plus measured deadlines.",
+        "technique": "Lean 4 proof (step/frame lemmas) + state correspondence + buffer-bounds monitor"},
     "C13": {
         "text": "Lean 4 theorems over the pool automaton P for every sequence of pool events (any callers, addresses, ticks at any clock values, failures, CloseIdleConnections, Close): open sockets per address never exceed MaxConnsPerHost, idle queues never exceed MaxIdleConnsPerHost, limits are normalised as documented. Normalisation and cursor arithmetic are translated from transport.go on every run; P is compared with the real Transport (pool snapshot, open sockets, dials, outcomes) after every action of scripted scenarios, and a counting socket wrapper checks the bound at every dial.",
         "note": KERNEL_NOTE + "Also trusted: the verif-tagged accessors and real timers in the correspondence phases (margins >= 20 ticks).",
